@@ -2,6 +2,7 @@ import MazeVerif.Lemmas.WilsonStepProb
 import MazeVerif.Lemmas.WilsonRefine
 import MazeVerif.Lemmas.SpanningMask
 import MazeVerif.Lemmas.WilsonSupport
+import MazeVerif.Lemmas.WilsonTerm
 import MazeVerif.Props.C01
 import MazeVerif.Props.C19Table33
 import MazeVerif.Props.C19Table24
@@ -26,6 +27,13 @@ Conversely (EVERY grid, `Lemmas/WilsonSupport.lean`): every spanning tree is ret
 machine (`C19_support_all`) and from some number of draws on has positive probability (`C19_every_tree_positive`,
 `C19_every_tree_positive_eventually`); hence a mask has positive probability at some time iff it is a spanning tree
 (`C19_support_exact`, `C19_support_exact_tree`) — the qualitative half of uniformity.
+Termination (EVERY grid, `Lemmas/WilsonTerm.lean`): from every reachable state the generator finishes within
+`termL = (rows*cols+1)*(rows+cols+1)` draws with probability at least `termDelta = (1/max 4 (rows*cols))^termL`
+(`C19_can_finish_within`, `C19_finish_probability`), so `R (m + termL) ≤ (1 - termDelta) * R m`
+(`C19_unfinished_contracts`), `R (k*termL) ≤ (1 - termDelta)^k` (`C19_geometric_decay`), `R m → 0`
+(`C19_terminates_almost_surely`), `Pany m → 1` (`C19_Pany_tends_to_one`) and every `P n T` is Cauchy with an explicit
+rate (`C19_P_cauchy`, `C19_P_rate`): the law of the returned maze is a well-defined limit and the loops hang with
+probability 0. This is the `R`-half of `C19_full`.
 `_partial`: uniformity on larger grids (Wilson's theorem in general: all those positive limits are EQUAL) is not
 mechanised. -/
 namespace MZ.C19
@@ -347,6 +355,125 @@ theorem C19_support_exact_tree {rows cols : Nat} (hr : 0 < rows) (hc : 0 < cols)
       T < 2 ^ (2 * (rows * cols)) ∧ SpanningTree rows cols (edgesOfMask rows cols T) := by
   rw [C19_support_exact hr hc, C19_table_exact hr hc]
 
+/-! ### almost-sure termination on EVERY grid: the unfinished mass decays geometrically, every `P n T` converges -/
+
+/-- the state invariant behind the termination argument (`WTerm.Inv`: some in-grid cell is visited; the stored walk
+    consists of unvisited in-grid cells) holds in every start state and is preserved by every draw -/
+theorem C19_invariant {rows cols : Nat} (hr : 0 < rows) (hc : 0 < cols) :
+    (∀ s ∈ starts rows cols, WTerm.Inv rows cols s) ∧
+    ∀ s k, WTerm.Inv rows cols s → WTerm.Inv rows cols (next rows cols s k) :=
+  ⟨fun _ hs => WTerm.inv_start hr hc hs, fun _ k hI => WTerm.inv_next hI k⟩
+
+/-- quantitative "can finish" (EVERY grid, EVERY invariant state, in particular mid-walk): some draw list of length at
+    most `termL rows cols = (rows*cols+1)*(rows+cols+1)`, each draw within its range, drives the executable machine
+    to a finished state -/
+theorem C19_can_finish_within {rows cols : Nat} {s : WS} (hI : WTerm.Inv rows cols s) :
+    ∃ ds t, ds.length ≤ WTerm.termL rows cols ∧ runFrom rows cols s ds ds.length = some (t, []) := by
+  obtain ⟨ds, t, hreach, hlen⟩ := WTerm.finish_from hI
+  exact ⟨ds, t, hlen, reaches_runFrom hreach _ (le_refl _)⟩
+
+/-- from EVERY invariant state the generator has returned within `termL` draws with probability at least
+    `termDelta = (1 / max 4 (rows*cols)) ^ termL > 0`; equivalently it is still running with probability at most
+    `1 - termDelta` -/
+theorem C19_finish_probability {rows cols : Nat} {s : WS} (hI : WTerm.Inv rows cols s) :
+    0 < WTerm.termDelta rows cols ∧
+    WTerm.termDelta rows cols ≤ val (wilson rows cols) (fun _ => true) (WTerm.termL rows cols) s ∧
+    unfin (wilson rows cols) (WTerm.termL rows cols) s ≤ 1 - WTerm.termDelta rows cols :=
+  ⟨WTerm.termDelta_pos rows cols, WTerm.val_termL_ge hI, WTerm.unfin_termL_le hI⟩
+
+/-- Markov-property bound: `termL` extra draws shrink the probability of still running by the factor `1 - termDelta`,
+    from every invariant state and after any number `m` of draws -/
+theorem C19_unfinished_contracts_state {rows cols : Nat} {s : WS} (hI : WTerm.Inv rows cols s) (m : Nat) :
+    unfin (wilson rows cols) (m + WTerm.termL rows cols) s ≤
+      (1 - WTerm.termDelta rows cols) * unfin (wilson rows cols) m s :=
+  WTerm.unfin_add_termL_le hI m
+
+private theorem start_inv {rows cols : Nat} (hr : 0 < rows) (hc : 0 < cols) :
+    ∀ x ∈ start rows cols, WTerm.Inv rows cols x.1 := by
+  intro x hx
+  simp only [start, List.mem_map] at hx
+  obtain ⟨s, hs, rfl⟩ := hx
+  exact WTerm.inv_start hr hc hs
+
+/-- the same for the generator started as `gen_wilson` starts it: `R (m + termL) ≤ (1 - termDelta) * R m` -/
+theorem C19_unfinished_contracts {rows cols : Nat} (hr : 0 < rows) (hc : 0 < cols) (m : Nat) :
+    R rows cols (m + WTerm.termL rows cols) ≤ (1 - WTerm.termDelta rows cols) * R rows cols m := by
+  unfold R
+  rw [← WTerm.expect_mul_left]
+  exact WTerm.expect_mono_on (fun x hx => WTerm.unfin_add_termL_le (start_inv hr hc x hx) m)
+    (start_weights_nonneg rows cols)
+
+/-- geometric decay: after `k * termL` draws the generator is still running with probability at most
+    `(1 - termDelta)^k` -/
+theorem C19_geometric_decay {rows cols : Nat} (hr : 0 < rows) (hc : 0 < cols) (k : Nat) :
+    R rows cols (k * WTerm.termL rows cols) ≤ (1 - WTerm.termDelta rows cols) ^ k := by
+  have h := WTerm.expect_mono_on (f := unfin (wilson rows cols) (k * WTerm.termL rows cols))
+    (g := fun _ => (1 - WTerm.termDelta rows cols) ^ k) (d := start rows cols)
+    (fun x hx => WTerm.unfin_geometric (start_inv hr hc x hx) k) (start_weights_nonneg rows cols)
+  rw [WTerm.expect_const, start_total, mul_one] at h
+  exact h
+
+/-- `gen_wilson` terminates almost surely on EVERY grid: the probability that it is still running after `m` draws
+    tends to 0 (so the `while` loops hang with probability 0) -/
+theorem C19_terminates_almost_surely (rows cols : Nat) (h : 0 < rows) (h' : 0 < cols) :
+    ∀ eps : Rat, 0 < eps → ∃ n, ∀ m, n ≤ m → R rows cols m ≤ eps := by
+  intro eps heps
+  have hc1 : 1 - WTerm.termDelta rows cols < 1 := by have := WTerm.termDelta_pos rows cols; linarith
+  obtain ⟨k, hk⟩ := WTerm.exists_pow_le hc1 heps
+  exact ⟨k * WTerm.termL rows cols, fun m hm =>
+    le_trans (C19_unfinished_anti rows cols hm) (le_trans (C19_geometric_decay h h' k) hk)⟩
+
+private theorem pany_1x1 (m : Nat) : Pany 1 1 m = 1 := by
+  have hs : starts 1 1 = [{ vis := 1, edges := 0, path := [] }] := by decide
+  have hf : (wilson 1 1).fin { vis := 1, edges := 0, path := [] } = true := by decide
+  unfold Pany start
+  rw [hs]
+  simp [expect, val_fin _ hf, ind]
+
+/-- the probability that `gen_wilson` has returned a maze tends to 1, on EVERY grid -/
+theorem C19_Pany_tends_to_one (rows cols : Nat) (h : 0 < rows) (h' : 0 < cols) :
+    ∀ eps : Rat, 0 < eps → ∃ n, ∀ m, n ≤ m → 1 - eps ≤ Pany rows cols m ∧ Pany rows cols m ≤ 1 := by
+  intro eps heps
+  rcases Nat.lt_or_ge 1 (rows * cols) with h2 | h2
+  · obtain ⟨n, hn⟩ := C19_terminates_almost_surely rows cols h h' eps heps
+    refine ⟨n, fun m hm => ?_⟩
+    have hmass := C19_mass rows cols m h2
+    have hR := hn m hm
+    have hR0 : 0 ≤ R rows cols m := by
+      unfold R expect
+      exact sum_map_nonneg fun x hx => mul_nonneg (start_weights_nonneg rows cols x hx) (unfin_nonneg _ _ _)
+    constructor <;> linarith
+  · have h1 : rows * cols = 1 := le_antisymm h2 (Nat.mul_pos h h')
+    have hr1 : rows = 1 := by have := Nat.le_mul_of_pos_right rows h'; omega
+    have hc1 : cols = 1 := by have := Nat.le_mul_of_pos_left cols h; omega
+    subst hr1 hc1
+    exact ⟨0, fun m _ => by rw [pany_1x1]; constructor <;> linarith⟩
+
+/-- every `P n T` converges (Cauchy in `n`), on EVERY grid and for EVERY mask `T`: the law of the returned maze is a
+    well-defined limit. From `n` on, any two values differ by at most `eps`. -/
+theorem C19_P_cauchy (rows cols T : Nat) (h : 0 < rows) (h' : 0 < cols) :
+    ∀ eps : Rat, 0 < eps → ∃ n, ∀ m k, n ≤ m → n ≤ k → |P rows cols k T - P rows cols m T| ≤ eps := by
+  intro eps heps
+  obtain ⟨n, hn⟩ := C19_terminates_almost_surely rows cols h h' eps heps
+  refine ⟨n, fun m k hm hk => ?_⟩
+  rw [abs_le]
+  rcases Nat.le_total m k with hmk | hkm
+  · obtain ⟨h1, h2⟩ := C19_sandwich rows cols T hmk
+    have := hn m hm
+    constructor <;> linarith
+  · obtain ⟨h1, h2⟩ := C19_sandwich rows cols T hkm
+    have := hn k hk
+    constructor <;> linarith
+
+/-- the limit is approached from below and the error after `n` draws is at most the unfinished mass, which is at most
+    `(1 - termDelta)^k` once `n ≥ k * termL`: an explicit rate for every grid and every mask -/
+theorem C19_P_rate (rows cols T : Nat) (h : 0 < rows) (h' : 0 < cols) (k : Nat) {n m : Nat}
+    (hn : k * WTerm.termL rows cols ≤ n) (hnm : n ≤ m) :
+    P rows cols n T ≤ P rows cols m T ∧ P rows cols m T ≤ P rows cols n T + (1 - WTerm.termDelta rows cols) ^ k := by
+  obtain ⟨h1, h2⟩ := C19_sandwich rows cols T hnm
+  have h3 := le_trans (C19_unfinished_anti rows cols hn) (C19_geometric_decay h h' k)
+  exact ⟨h1, by linarith⟩
+
 /-! ### non-vacuity -/
 
 example : (allSpanningMasks 2 2) = [19, 67, 81, 82] := by decide
@@ -394,5 +521,41 @@ example : ∃ n, 0 < P 2 2 n 81 := (C19_support_exact (by decide) (by decide) 81
 example : ¬ ∃ n, 0 < P 2 2 n 3 := fun h => absurd ((C19_support_exact (by decide) (by decide) 3).mp h) (by decide)
 example : (∃ n, 0 < P 2 2 n 81) ↔ 81 < 2 ^ (2 * (2 * 2)) ∧ SpanningTree 2 2 (edgesOfMask 2 2 81) :=
   C19_support_exact_tree (by decide) (by decide) 81
+
+-- termination: the constants are explicit, the invariant covers mid-walk states, the theorems apply to a grid outside
+-- the evaluated tables
+example : WTerm.termL 2 2 = 25 ∧ WTerm.termA 2 2 = 4 ∧ WTerm.termL 3 4 = 104 ∧ WTerm.termA 3 4 = 12 := by decide
+example : WTerm.termDelta 2 2 = (1 / 4) ^ 25 := by norm_num [WTerm.termDelta, WTerm.termA, WTerm.termL]
+example : WTerm.Inv 2 2 { vis := 1, edges := 0, path := [] } :=
+  (C19_invariant (rows := 2) (cols := 2) (by decide) (by decide)).1 _
+    (by rw [show starts 2 2 = [{ vis := 1, edges := 0, path := [] }] by decide]; simp)
+-- a mid-walk state of the 3x3 grid (cells 0,1 visited, the walk stands at 8 -> 7 -> 4): invariant, one more draw
+example : WTerm.Inv 3 3 { vis := 3, edges := 512, path := [8, 7, 4] } :=
+  ⟨⟨0, by decide, by decide⟩, by decide, by decide⟩
+example : WTerm.Inv 3 3 (next 3 3 { vis := 3, edges := 512, path := [8, 7, 4] } 3) :=
+  (C19_invariant (rows := 3) (cols := 3) (by decide) (by decide)).2 _ 3 ⟨⟨0, by decide, by decide⟩, by decide, by decide⟩
+example : next 3 3 { vis := 3, edges := 512, path := [8, 7, 4] } 3 = { vis := 403, edges := 66066, path := [] } := by decide
+example : ∃ ds t, ds.length ≤ WTerm.termL 3 3 ∧ runFrom 3 3 { vis := 3, edges := 512, path := [8, 7, 4] } ds ds.length = some (t, []) :=
+  C19_can_finish_within ⟨⟨0, by decide, by decide⟩, by decide, by decide⟩
+example : 0 < WTerm.termDelta 3 3 ∧
+    WTerm.termDelta 3 3 ≤ val (wilson 3 3) (fun _ => true) (WTerm.termL 3 3) { vis := 3, edges := 512, path := [8, 7, 4] } ∧
+    unfin (wilson 3 3) (WTerm.termL 3 3) { vis := 3, edges := 512, path := [8, 7, 4] } ≤ 1 - WTerm.termDelta 3 3 :=
+  C19_finish_probability ⟨⟨0, by decide, by decide⟩, by decide, by decide⟩
+example : unfin (wilson 3 3) (7 + WTerm.termL 3 3) { vis := 3, edges := 512, path := [8, 7, 4] } ≤
+    (1 - WTerm.termDelta 3 3) * unfin (wilson 3 3) 7 { vis := 3, edges := 512, path := [8, 7, 4] } :=
+  C19_unfinished_contracts_state ⟨⟨0, by decide, by decide⟩, by decide, by decide⟩ 7
+example : R 3 4 (5 + WTerm.termL 3 4) ≤ (1 - WTerm.termDelta 3 4) * R 3 4 5 := C19_unfinished_contracts (by decide) (by decide) 5
+example : R 3 4 (2 * WTerm.termL 3 4) ≤ (1 - WTerm.termDelta 3 4) ^ 2 := C19_geometric_decay (by decide) (by decide) 2
+example : ∃ n, ∀ m, n ≤ m → R 5 7 m ≤ 1 / 1000000 := C19_terminates_almost_surely 5 7 (by decide) (by decide) _ (by norm_num)
+example : ∃ n, ∀ m, n ≤ m → 1 - 1 / 1000000 ≤ Pany 5 7 m ∧ Pany 5 7 m ≤ 1 :=
+  C19_Pany_tends_to_one 5 7 (by decide) (by decide) _ (by norm_num)
+example : ∃ n, ∀ m, n ≤ m → 1 - 1 / 2 ≤ Pany 1 1 m ∧ Pany 1 1 m ≤ 1 := C19_Pany_tends_to_one 1 1 (by decide) (by decide) _ (by norm_num)
+example : ∃ n, ∀ m k, n ≤ m → n ≤ k → |P 3 4 k 28927 - P 3 4 m 28927| ≤ 1 / 1000000 :=
+  C19_P_cauchy 3 4 28927 (by decide) (by decide) _ (by norm_num)
+example : P 3 4 208 28927 ≤ P 3 4 300 28927 ∧ P 3 4 300 28927 ≤ P 3 4 208 28927 + (1 - WTerm.termDelta 3 4) ^ 2 :=
+  C19_P_rate 3 4 28927 (by decide) (by decide) 2 (by decide) (by decide)
+-- the contraction factor is a genuine contraction: 0 <= 1 - termDelta < 1
+example : 0 ≤ 1 - WTerm.termDelta 3 4 ∧ 1 - WTerm.termDelta 3 4 < 1 :=
+  ⟨by have := WTerm.termDelta_le_one 3 4; linarith, by have := WTerm.termDelta_pos 3 4; linarith⟩
 
 end MZ.C19
